@@ -618,11 +618,20 @@ impl Big {
         if self.m == 0.0 || !self.m.is_finite() {
             return Big { m: self.m, e: 0 };
         }
-        // bring |m| into [1, 2)
-        let bits = self.m.abs().log2().floor() as i64;
+        // bring |m| into [1, 2); pre-scale extreme values so that the power of two used below
+        // (and its reciprocal, which is how powi treats negative exponents) stays finite
+        let (mut m, mut e) = (self.m, self.e);
+        if m.abs() < 1e-250 {
+            m *= 2f64.powi(800);
+            e -= 800;
+        } else if m.abs() > 1e250 {
+            m /= 2f64.powi(800);
+            e += 800;
+        }
+        let bits = m.abs().log2().floor() as i64;
         Big {
-            m: self.m / 2f64.powi(bits as i32),
-            e: self.e + bits,
+            m: m / 2f64.powi(bits as i32),
+            e: e + bits,
         }
     }
     pub fn mul(self, o: Big) -> Big {
